@@ -14,7 +14,8 @@ truncated by the cancellation) therefore must not answer `(false, nil)` for a ca
     and the loop ends through `for leftOpen || rightOpen` with `(false, nil)`;
   * `tie_weight2_consumer_guards` — the control skeleton of `weight2` (every `select` case, every
     `ctx.Err()` / `ctx.Done()` consultation, every exit of `ConsumerLoop`) is the one the model was written
-    against; `tie_fan_in`, `tie_streamed_lookup`, `tie_iterators_to_userset` the same for the producers.
+    against (`C02.Ties.tie_weight2Skel` pins the whole skeleton; `C02.Ties.tie_fanInIteratorChannelsSkel`,
+    `tie_streamedLookupUsersetFromIteratorSkel`, `tie_iteratorsToUsersetSkel` the producers).
 -/
 import OpenFGAVerif.Proofs.RefRules
 import OpenFGAVerif.Props.C02Ties
@@ -45,10 +46,5 @@ theorem tie_weight2_consumer_guards :
      "5:break ConsumerLoop"].all (fun l => Gen.Strategies.weight2Skel.contains l) = true := by
   rw [C02.Ties.tie_weight2Skel]
   decide
-
-theorem tie_weight2_skeleton := C02.Ties.tie_weight2Skel
-theorem tie_fan_in := C02.Ties.tie_fanInIteratorChannelsSkel
-theorem tie_streamed_lookup := C02.Ties.tie_streamedLookupUsersetFromIteratorSkel
-theorem tie_iterators_to_userset := C02.Ties.tie_iteratorsToUsersetSkel
 
 end OpenFGAVerif.C08
